@@ -238,6 +238,81 @@ theorem mainLoop_closed_surface (negMax : K) (pts : Array (V3 K)) : ∀ (fuel i 
           exact ih (i + 1) ts' und' tsF hT' hsz (hrest _ _ _ hstep) h
         all_goals exact absurd h (by simp)
 
+/-- index safety of the facet array: every stored point index is a valid point index, every stored facet link a valid facet index,
+every stored edge number `< 3` — for ALL facets, valid or not (the code reads removed facets too) -/
+def WF (npts : Nat) (ts : Array (Facet K)) : Prop :=
+  ∀ a, a < ts.size → ∀ j, j < 3 →
+    (tAt ts a).pts.get j < npts ∧ (tAt ts a).adj.get j < ts.size ∧ (tAt ts a).ind.get j < 3
+
+/-- invalidating facets keeps index safety -/
+theorem wf_of_shrunk (npts : Nat) (a b : Array (Facet K)) (h : Shrunk a b) (hb : WF npts b) : WF npts a := by
+  intro x hx j hj
+  obtain ⟨e1, e2, e3, _⟩ := h.2 x
+  rw [e1, e2, e3, h.1]
+  exact hb x (by rw [← h.1]; exact hx) j hj
+
+/-- **index safety and vertex provenance through `attach_and_push_facets`**: the new facets' vertices are the attached point
+and end points of silhouette edges (existing vertices); every link of the enlarged array is in range. -/
+theorem attach_index_safe (npts : Nat) (pts : Array (V3 K)) (point : Nat) (sil : Array (Nat × Nat)) (removed : Array Nat)
+    (ts : Array (Facet K)) (und : Array Nat) (ts' : Array (Facet K)) (und' : Array Nat) (hp : SilPre ts sil)
+    (hw : WF npts ts) (hpt : point < npts) (h : attachAndPush pts point sil removed ts und = some (ts', und')) :
+    WF npts ts' ∧ ts'.size = ts.size + sil.size ∧
+    ∀ a, ts.size ≤ a → a < ts'.size → ∀ j, j < 3 →
+      (tAt ts' a).pts.get j = point ∨ ∃ b k, b < ts.size ∧ k < 3 ∧ (tAt ts' a).pts.get j = (tAt ts b).pts.get k := by
+  obtain ⟨ts1, nf, rfl, hs1, hs2, hA, hB⟩ := attach_closed_form pts point sil removed ts und ts' und' hp h
+  have hsz : (ts1 ++ nf).size = ts.size + sil.size := by simp [hs1, hs2]
+  have hnew : ∀ q, tAt (ts1 ++ nf) (ts.size + q) = tAt nf q := fun q => by
+    rw [tAt_append, if_neg (by omega)]; congr 1; omega
+  have hnewf : ∀ q, q < sil.size → ∃ e : Nat × Nat, sil[q]? = some e ∧ e.1 < ts.size ∧ e.2 < 3 ∧
+      (tAt nf q).pts = ⟨point, secondOf ts e, firstOf ts e⟩ ∧
+      (tAt nf q).adj = ⟨prevOf ts.size sil.size q, e.1, nextOf ts.size sil.size q⟩ ∧ (tAt nf q).ind = ⟨2, e.2, 0⟩ := by
+    intro q hq
+    have hsq : sil[q]? = some ((sil[q]?).getD (0, 0)) := by simp [hq]
+    generalize (sil[q]?).getD (0, 0) = e at hsq
+    obtain ⟨_, b2, b3, b4⟩ := hB q e hsq
+    obtain ⟨ea, ej⟩ := e
+    obtain ⟨r1, r2, _, _⟩ := hp.rng q ea ej hsq
+    exact ⟨(ea, ej), hsq, r1, r2, b2, b3, b4⟩
+  refine ⟨?_, hsz, ?_⟩
+  · intro a ha j hj
+    rw [hsz] at ha ⊢
+    by_cases hin : a < ts.size
+    · rw [tAt_append, if_pos (by omega)]
+      obtain ⟨_, a2, a3⟩ := hA a
+      obtain ⟨w1, w2, w3⟩ := hw a hin j hj
+      rw [a2]
+      refine ⟨w1, ?_⟩
+      by_cases hex : ∃ q : Nat, sil[q]? = some (a, j)
+      · obtain ⟨q, hq⟩ := hex
+        obtain ⟨c1, c2⟩ := (a3 j hj).2 q hq
+        have := getElem?_lt_of_some _ _ _ hq
+        rw [c1, c2]; omega
+      · obtain ⟨c1, c2⟩ := (a3 j hj).1 (fun q hq => hex ⟨q, hq⟩)
+        rw [c1, c2]; omega
+    · obtain ⟨q, rfl⟩ : ∃ q, a = ts.size + q := ⟨a - ts.size, by omega⟩
+      have hq : q < sil.size := by omega
+      have hm : 0 < sil.size := by omega
+      obtain ⟨e, _, e1, e2, f2, f3, f4⟩ := hnewf q hq
+      rw [hnew q, f2, f3, f4]
+      have hsec : secondOf ts e < npts := (hw e.1 e1 _ (Nat.mod_lt _ (by omega))).1
+      have hfst : firstOf ts e < npts := (hw e.1 e1 _ e2).1
+      have hprev : prevOf ts.size sil.size q < ts.size + sil.size := by unfold prevOf; split <;> omega
+      have hnext : nextOf ts.size sil.size q < ts.size + sil.size := by
+        unfold nextOf; have := Nat.mod_lt (q + 1) hm; omega
+      rcases lt3 hj with rfl | rfl | rfl
+      · exact ⟨hpt, hprev, by show (2 : Nat) < 3; omega⟩
+      · exact ⟨hsec, by show e.1 < _; omega, e2⟩
+      · exact ⟨hfst, hnext, by show (0 : Nat) < 3; omega⟩
+  · intro a hlo hhi j hj
+    rw [hsz] at hhi
+    obtain ⟨q, rfl⟩ : ∃ q, a = ts.size + q := ⟨a - ts.size, by omega⟩
+    obtain ⟨e, _, e1, e2, f2, _, _⟩ := hnewf q (by omega)
+    rw [hnew q, f2]
+    rcases lt3 hj with rfl | rfl | rfl
+    · exact Or.inl rfl
+    · exact Or.inr ⟨e.1, (e.2 + 1) % 3, e1, Nat.mod_lt _ (by omega), rfl⟩
+    · exact Or.inr ⟨e.1, e.2, e1, e2, rfl⟩
+
 /-- a closed surface in link form is closed in edge form: every directed edge of a valid facet has its reverse in a valid facet -/
 theorem output_edges_twinned (ts : Array (Facet K)) (hT : Twin ts) (i j : Nat) (hi : i < ts.size)
     (hv : (tAt ts i).valid = true) (hj : j < 3) :
